@@ -2,7 +2,10 @@
 """Prints the markdown table of /verif/seeded/*/meta.json for DESIGN.md §12."""
 import json, glob, os, re
 rows = []
-for d in sorted(glob.glob('/verif/seeded/*')):
+def natkey(d):
+    a, b = os.path.basename(d).split('-')
+    return (a, int(b))
+for d in sorted(glob.glob('/verif/seeded/*'), key=natkey):
     mp = os.path.join(d, 'meta.json')
     if not os.path.exists(mp):
         continue
